@@ -131,11 +131,11 @@ Proof.
   destruct (match_pat q s) as [[v0 r0]|] eqn:E; [|intros H; right; now apply IH].
   intros H. injection H as <- <- <-. now left.
 Qed.
-Lemma first_match_none_name ps s : In P_NAME ps -> first_match ps s = None -> match_pat P_NAME s = None.
+Lemma first_match_none_in ps s q0 : In q0 ps -> first_match ps s = None -> match_pat q0 s = None.
 Proof.
   induction ps as [|q ps IH]; cbn [first_match In]; [tauto|].
   intros [->|Hin] H.
-  - destruct (match_pat P_NAME s) as [[v0 r0]|]; [discriminate|reflexivity].
+  - destruct (match_pat q0 s) as [[v0 r0]|]; [discriminate|reflexivity].
   - destruct (match_pat q s) as [[v0 r0]|]; [discriminate|]. now apply IH.
 Qed.
 
@@ -158,7 +158,7 @@ Definition err_site (c : N) (k r : str) : Prop :=
   c = cls_eof \/
   (c = cls_premature /\ r = []) \/
   (c = cls_token_required /\
-     ((exists x r', r = x :: r' /\ is_space x = false /\ match_pat P_NAME r = None) \/
+     ((exists x r', r = x :: r' /\ is_space x = false /\ (match_pat P_NAME r = None \/ match_pat P_LBRACE r = None)) \/
       (exists k' name, k = k' ++ name /\ wf_name name /\ arity name = None /\ stops is_name_char r))).
 Definition step_err (s : str) (ln : Z) (c : N) (l : Z) : Prop :=
   exists k r, s = k ++ r /\ l = (ln + lf k)%Z /\ err_site c k r.
@@ -183,7 +183,7 @@ Proof.
   rewrite app_length. destruct k; [congruence|cbn; lia].
 Qed.
 
-Lemma required_inv ps ae s ln : In P_NAME ps -> no_cr s = true -> ssl false s = true ->
+Lemma required_inv ps ae s ln : In P_NAME ps \/ In P_LBRACE ps -> no_cr s = true -> ssl false s = true ->
   match required ps ae s ln with
   | Ok ((p, v), (s', ln')) => step_ok s ln s' ln' /\ exists g, s = g ++ v ++ s' /\ all_space g /\ match_pat p (v ++ s') = Some (v, s') /\ ln' = (ln + lf g)%Z /\ In p ps
   | PyErr c l => step_err s ln c l /\ (c = cls_eof -> ae = true)
@@ -211,7 +211,7 @@ Proof.
       * exists g. split; [rewrite Heq; reflexivity|]. split; [exact Hg|]. split; [rewrite <- Heq; exact Ef|split; [reflexivity|exact Hinp]].
     + split; [|discriminate]. exists g, (x :: r'). split; [reflexivity|]. split; [reflexivity|].
       right; right. split; [reflexivity|left]. exists x, r'. split; [reflexivity|].
-      split; [exact Hr|]. now apply (first_match_none_name ps).
+      split; [exact Hr|]. destruct Hin as [Hin|Hin]; [left|right]; now apply (first_match_none_in ps).
 Qed.
 
 Lemma literal_no_pyerr p v c l : literal p v <> PyErr c l.
@@ -244,7 +244,7 @@ Lemma parse_group_inv : forall fuel s ln, no_cr s = true -> ssl false s = true -
 Proof.
   induction fuel as [|f IH]; intros s ln Hcr Hssl; [exact I|].
   cbn [parse_group].
-  pose proof (required_inv group_pats false s ln In_name_group Hcr Hssl) as Hreq.
+  pose proof (required_inv group_pats false s ln (or_introl In_name_group) Hcr Hssl) as Hreq.
   destruct (required group_pats false s ln) as [[[p v] [s1 ln1]]|c l| |]; cbn [bind]; try exact I.
   2:{ destruct Hreq as [Herr Hc]. split; [exact Herr|]. intros ->. specialize (Hc eq_refl). discriminate. }
   destruct Hreq as [Hstep _].
@@ -298,31 +298,7 @@ Proof.
   destruct H as (? & _ & _ & _ & H); exact H.
 Qed.
 
-Lemma optional_lbrace_inv s ln : no_cr s = true -> ssl false s = true ->
-  match optional [P_LBRACE] s ln with
-  | Ok (Some _, (s', ln')) => step_ok s ln s' ln'
-  | Ok (None, (s', ln')) => step_ok0 s ln s' ln'
-  | PyErr c l => step_err s ln c l /\ c <> cls_eof
-  | _ => False
-  end.
-Proof.
-  intros Hcr Hssl. unfold optional, get_token, eat_whitespace.
-  destruct (span is_space s) as [g r] eqn:E. destruct (span_decomp _ _ _ _ E) as (-> & Hg & Hr).
-  destruct (no_cr_app _ _ Hcr) as [Hcrg Hcrr]. rewrite (nl_count_nocr g Hcrg).
-  assert (Hsr : ssl false r = true).
-  { rewrite ssl_noquote in Hssl; [exact Hssl|]. apply (forallb_impl _ _ _ space_not_quote Hg). }
-  destruct r as [|x r'].
-  - split; [|discriminate]. exists g, []. split; [reflexivity|]. split; [reflexivity|]. right; left. split; reflexivity.
-  - destruct (first_match [P_LBRACE] (x :: r')) as [[[p v] r'']|] eqn:Ef.
-    + apply first_match_inv in Ef. destruct (match_pat_inv _ _ _ _ Ef) as (Heq & Hv & Hs).
-      destruct (Hs Hsr) as [Hlf Hs'].
-      exists (g ++ v). split; [rewrite Heq, app_assoc; reflexivity|].
-      split; [destruct v; [congruence|destruct g; discriminate]|].
-      split; [rewrite lf_app, Hlf; lia|exact Hs'].
-    + destruct g as [|y g'].
-      * left. cbn [app]. split; [reflexivity|]. split; [unfold lf; cbn; lia|exact Hsr].
-      * right. exists (y :: g'). split; [reflexivity|]. split; [discriminate|]. split; [reflexivity|exact Hsr].
-Qed.
+Lemma In_lbrace_single : In P_LBRACE [P_LBRACE]. Proof. left; reflexivity. Qed.
 
 Lemma parse_args_inv fuel : forall n s ln, no_cr s = true -> ssl false s = true ->
   inv_result0 s ln (parse_args fuel n s ln).
@@ -330,11 +306,10 @@ Proof.
   induction n as [|k IH]; intros s ln Hcr Hssl.
   - cbn. left. auto.
   - cbn [parse_args].
-    pose proof (optional_lbrace_inv s ln Hcr Hssl) as Hopt.
-    destruct (optional [P_LBRACE] s ln) as [[o [s1 ln1]]|c l| |]; cbn [bind inv_result0]; try exact I.
-    2:{ exact Hopt. }
-    destruct o as [t|].
-    2:{ exact Hopt. }
+    pose proof (required_inv [P_LBRACE] false s ln (or_intror In_lbrace_single) Hcr Hssl) as Hreq.
+    destruct (required [P_LBRACE] false s ln) as [[[p v] [s1 ln1]]|c l| |]; cbn [bind inv_result0]; try exact I.
+    2:{ destruct Hreq as [Herr Hc]. split; [exact Herr|]. intros ->. specialize (Hc eq_refl). discriminate. }
+    destruct Hreq as [Hopt _].
     destruct (step_ok_suffix _ _ _ _ Hopt Hcr) as [Hcr1 _].
     assert (Hssl1 : ssl false s1 = true) by (destruct Hopt as (? & _ & _ & _ & H); exact H).
     pose proof (parse_group_inv fuel s1 ln1 Hcr1 Hssl1) as Hg.
@@ -367,7 +342,7 @@ Lemma parse_command_inv fuel s ln : no_cr s = true -> ssl false s = true ->
   end.
 Proof.
   intros Hcr Hssl. unfold parse_command.
-  pose proof (required_inv [P_NAME] true s ln In_name_single Hcr Hssl) as Hreq.
+  pose proof (required_inv [P_NAME] true s ln (or_introl In_name_single) Hcr Hssl) as Hreq.
   destruct (required [P_NAME] true s ln) as [[[p name] [s1 ln1]]|c l| |]; cbn [bind]; try exact I.
   2:{ exact (proj1 Hreq). }
   destruct Hreq as [Hstep (g & Heq & Hg & Hm & Hln & Hin)].
@@ -411,7 +386,7 @@ Qed.
 Definition error_site (c : N) (pre post : str) : Prop :=
   (c = cls_premature /\ post = []) \/
   (c = cls_token_required /\
-     ((exists x r', post = x :: r' /\ is_space x = false /\ match_pat P_NAME post = None) \/
+     ((exists x r', post = x :: r' /\ is_space x = false /\ (match_pat P_NAME post = None \/ match_pat P_LBRACE post = None)) \/
       (exists pre' name, pre = pre' ++ name /\ wf_name name /\ arity name = None /\ stops is_name_char post))).
 
 Theorem error_names_line_text : forall text c l,
@@ -510,4 +485,14 @@ Proof.
   split; [|exists pre, post; auto].
   pose proof (lf_nonneg pre). pose proof (lf_nonneg post).
   rewrite Heq, lf_app in Hlines. lia.
+Qed.
+
+(* ---- F29: without the single-line-strings hypothesis the line is wrong.  The scanner reports
+        line 1 for the name c of   "a<LF>b" c   although one line feed precedes it: get_token does
+        not count line feeds inside a STRING token. *)
+Theorem lineno_counts_refuted : exists text pre v,
+  text = pre ++ v /\ lf pre = 1%Z /\ In (0%nat, v, 1%Z) (fst (scan_tokens (S (length text)) text 1%Z)).
+Proof.
+  exists [34; 97; 10; 98; 34; 32; 99], [34; 97; 10; 98; 34; 32], [99].
+  split; [reflexivity|]. split; [reflexivity|]. vm_compute. right. left. reflexivity.
 Qed.
